@@ -812,6 +812,33 @@ func runC12(c *core.Ctx) {
 		}
 	}
 
+	// 2b. large frames whose body stops short - at powers of two, at 1 MiB steps, one byte beside them: a request that
+	// never arrived in full is neither answered nor passed over in silence, the connection ends with an error
+	for _, declared := range []int{3 << 20, 16 << 20} {
+		for _, cut := range []int{4096, 65536, 3 * 65536, 1<<20 - 1, 1 << 20, 1<<20 + 1, 2 << 20, 2<<20 + 1} {
+			if cut >= declared {
+				continue
+			}
+			hdr := []byte{byte(declared >> 24), byte(declared >> 16), byte(declared >> 8), byte(declared)}
+			s := append(frame([]byte{yubiagent.AgentMessageListSlots}), hdr...)
+			body := make([]byte, cut)
+			body[0] = 32
+			s = append(s, body...)
+			o := serveStream(fake, s, 60*time.Second, false)
+			in := map[string]interface{}{"stream": fmt.Sprintf("list-slots frame, then a frame declaring %d bytes whose body ends after %d bytes", declared, cut)}
+			switch {
+			case o.panicked || o.hung:
+				c.Native("ServeAgent crashed or hung on a large frame cut short: "+strings.SplitN(o.panicMsg, "\n", 2)[0], in)
+			case o.err == nil:
+				c.Native(fmt.Sprintf("a frame declaring %d bytes that ended after %d bytes was passed over in silence (ServeAgent returned nil, %d response frames)", declared, cut, len(o.frames)), in)
+			case len(o.frames) != 1:
+				c.Native(fmt.Sprintf("%d response frames for one complete request followed by a frame cut short", len(o.frames)), in)
+			default:
+				c.NativeCheck(1)
+			}
+		}
+	}
+
 	// 3. every class of valid frame alone, then truncated at every prefix position (short ones) or at random cuts
 	for kind := 0; kind <= 8; kind++ {
 		for i := 0; i < c.N(6, 60); i++ {
